@@ -504,6 +504,22 @@ Proof.
   - destruct (String.eqb a ty'); auto.
 Qed.
 
+Lemma registry_frame : forall (reg : registry) (ty ty' : string) (r : resolver), ty' <> ty ->
+  lookup_resolver (reg_register reg ty r) ty' = lookup_resolver reg ty' /\
+  lookup_resolver (reg_delete reg ty) ty' = lookup_resolver reg ty'.
+Proof.
+  intros reg ty ty' r H. split; [apply lookup_register_other|apply lookup_delete_other]; exact H.
+Qed.
+
+Lemma options_spec : forall (dflt : registry) (opts : list vopt) (reg : registry) (cs : cred_status),
+  validate_credential_status dflt [] cs = validate_status dflt cs /\
+  validate_credential_status dflt (opts ++ [OptRegistry (Some reg)]) cs =
+    (if existsb opt_is_fail opts then Err EOption else validate_status reg cs).
+Proof.
+  intros dflt opts reg cs. split;
+    [apply validate_credential_status_default|apply validate_credential_status_with].
+Qed.
+
 (* a status type nobody registered (or that was deleted) is refused *)
 Theorem unregistered_refused : forall reg cs,
   lookup_resolver reg (cs_type cs) = None -> validate_status reg cs = Err EStatusType.
@@ -1065,6 +1081,13 @@ Example ex_options :
   validate_credential_status toyP toyq (regT (ans 4)) [OptRegistry None] (mkcs "T" 4)
     = Panic "nil *CredentialStatusResolverRegistry".
 Proof. vm_compute. repeat split. Qed.
+
+(* the real modulus (BN254 scalar field) satisfies the shape hypotheses, and every uint64
+   revocation nonce satisfies 0 <= nonce < q *)
+Definition bn254_q : Z :=
+  21888242871839275222246405745257275088548364400416034343698204186575808495617.
+Example real_q_ok : 0 < bn254_q <= 2 ^ 256 /\ 2 ^ 64 <= bn254_q.
+Proof. unfold bn254_q. split; [split|]; [reflexivity| |]; intro H; discriminate H. Qed.
 
 Example ex_hex :
   hex_decode "0100000000000000000000000000000000000000000000000000000000000000" = HVal 1 /\
